@@ -12,7 +12,8 @@ RULE = ("Pipeline cases: 1-2 contigs (400-1200 bp), well separated variants of a
         "--internal-downsampling drawn from 2..15 so that the cap binds; options --tag PS|HP, --only-snvs, --sample and "
         "--chromosome subsets. Oracle: for every selected sample and every phase set of the output (decoded with pysam), "
         "the phased alleles equal the true haplotype pair or its swap, one choice per phase set; in the traced solver instances every "
-        "read allele equals the allele of the haplotype the read was copied from and the optimal cost is 0. Non-trivial = at least "
+        "read allele equals the allele of the haplotype the read was copied from, every read (pair) carries all heterozygous "
+        "variants one of its alignments fully covers, and the optimal cost is 0. Non-trivial = at least "
         "one phase set with >= 2 variants. Distinct = distinct generated case.")
 ASSUMPTIONS = [
     "default exact algorithm, trusted genotypes, with reference; --distrust-genotypes / --merge-reads / other algorithms are outside the stated domain",
@@ -52,9 +53,13 @@ def gen(draw):
     return case
 
 
-def check_read_alleles(case, trace, ctx, sigprefix="truth"):
-    """every allele the solver saw on a read is the allele of the haplotype the read was copied from; the optimum costs nothing"""
+def check_read_alleles(case, trace, ctx, sigprefix="truth", reads=None, only_snvs=False):
+    """every allele the solver saw on a read is the allele of the haplotype the read was copied from; the optimum costs nothing;
+    a read (pair) used by the solver carries every heterozygous variant that one of its alignments fully covers"""
     spec = {sp["name"]: sp for sp in case["read_specs"]}
+    records = {}
+    for r in reads or []:
+        records.setdefault(r["name"], []).append(r)
     index = {c["name"]: {v["pos"]: vi for vi, v in enumerate(case["variants"][c["name"]])} for c in case["contigs"]}
     cut_seen = False
     for t in trace:
@@ -64,6 +69,19 @@ def check_read_alleles(case, trace, ctx, sigprefix="truth"):
                 ctx.violation(sigprefix + ":unknown-read", "read %r in the solver instance was never written" % r["name"])
                 continue
             hap = case["haps"][sp["sample"]][sp["chrom"]][sp["hap"]]
+            if r["name"] in records:
+                seen = {pos for pos, _, _ in r["variants"]}
+                both = case["haps"][sp["sample"]][sp["chrom"]]
+                for vi, v in enumerate(case["variants"][sp["chrom"]]):
+                    if both[0][vi] == both[1][vi] or (only_snvs and G.vtype(v) != "snv") or vi in (sp.get("cut_end_in_ref"), sp.get("cut_start_in_ref")):
+                        continue
+                    classes = [G.coverage_class(x, v) for x in records[r["name"]]]
+                    if "full" in classes and "partial" not in classes and v["pos"] not in seen:
+                        ctx.violation(sigprefix + ":read-variant-missing:" + ("pair" if len(classes) > 1 else "single"),
+                                      "read %s fully covers the heterozygous %s at %s:%d (coverage of its alignments: %r) but entered the solver without an allele there" % (
+                                          r["name"], G.vtype(v), sp["chrom"], v["pos"] + 1, classes))
+                if len(records[r["name"]]) > 1:
+                    ctx.label("pair-in-solver-instance")
             for pos, allele, q in r["variants"]:
                 vi = index[t["chromosome"]].get(pos)
                 if vi is None:
@@ -150,7 +168,7 @@ class TruthPart:
         samples = o["samples"] or case["samples"]
         chroms = o["chromosomes"] or [c["name"] for c in case["contigs"]]
         n, types = check_truth(case, out, ctx, samples, chroms, o["only_snvs"])
-        if check_read_alleles(case, trace, ctx):
+        if check_read_alleles(case, trace, ctx, reads=reads, only_snvs=o["only_snvs"]):
             ctx.label("allele-from-read-cut-inside-REF")
         ctx.nontrivial(n >= 1)
         ctx.label("tag-" + o["tag"])
